@@ -67,7 +67,7 @@ Reply ==
      /\ IF p # "ok" THEN UNCHANGED <<file, plug, resumed, paused, live, maxId>>
         ELSE IF c.verb = "open" THEN
              /\ file' = FileModeOf(c.arg) /\ plug' = HasPlugin(c.arg) /\ resumed' = FALSE
-             /\ paused' = (c.arg = "ok_onepass") /\ UNCHANGED <<live, maxId>>
+             /\ paused' = (c.arg \in OnePassOpenArgs) /\ UNCHANGED <<live, maxId>>
         ELSE IF c.verb = "close" THEN
              /\ file' = "none" /\ plug' = FALSE /\ resumed' = FALSE /\ paused' = FALSE /\ live' = {} /\ UNCHANGED maxId
         ELSE IF c.verb = "resume" THEN resumed' = TRUE /\ paused' = FALSE /\ UNCHANGED <<file, plug, live, maxId>>
